@@ -44,13 +44,41 @@ Definition ftc_lines (style : list Z) (fs : list frag) : list (list frag) :=
 Inductive processor :=
 | PIdentity
 | PPassword (ch : list Z)                              (* PasswordProcessor(char) *)
-| PBeforeInput (style : list Z) (fs : list frag).      (* BeforeInput(text, style) *)
+| PBeforeInput (style : list Z) (fs : list frag)       (* BeforeInput(text, style) *)
+| PAppend (style : list Z) (text : list Z) (last : Z)  (* AppendAutoSuggestion: suggestion text after the last line *)
+| PSelect (sel : Z -> option (Z * Z)).                 (* HighlightSelectionProcessor; sel = document.selection_range_at_line *)
+
+(* " class:selected " *)
+Definition S_SELECTED : list Z := [32;99;108;97;115;115;58;115;101;108;101;99;116;101;100;32].
+
+Fixpoint restyle_at (i : Z) (suffix : list Z) (fs : list frag) : list frag :=
+  match fs with
+  | [] => []
+  | f :: r => if i =? 0 then (fst f ++ suffix, snd f) :: r else f :: restyle_at (i - 1) suffix r
+  end.
+(* for i in range(from_, to): len(fragments) is re-read in every iteration *)
+Fixpoint select_loop (n : nat) (i : Z) (fs : list frag) : list frag :=
+  match n with
+  | O => fs
+  | S k => let fs' := if i <? len fs then restyle_at i S_SELECTED fs
+                      else if i =? len fs then fs ++ [(S_SELECTED, [32])] else fs in
+           select_loop k (i + 1) fs'
+  end.
 
 Definition apply_proc (p : processor) (lineno : Z) (fs : list frag) : list frag :=
   match p with
   | PIdentity => fs
   | PPassword ch => map (fun f : frag => (fst f, str_mul ch (len (snd f)))) fs
   | PBeforeInput st b => if lineno =? 0 then with_style st b ++ fs else fs
+  | PAppend st tx last => if lineno =? last then fs ++ [(st, tx)] else fs
+  | PSelect sel =>
+      match sel lineno with
+      | None => fs
+      | Some (from, to) =>
+          let e := explode fs in
+          if (from =? 0) && (to =? 0) && (len e =? 0) then [(S_SELECTED, [32])]
+          else select_loop (Z.to_nat (to - from)) from e
+      end
   end.
 (* merge_processors: in order *)
 Definition apply_procs (ps : list processor) (lineno : Z) (fs : list frag) : list frag :=
@@ -96,6 +124,43 @@ Section Menu.
     with_style style_str ([([], [32])] ++ fst tt ++ [([], str_mul [32] (width - 1 - snd tt))]).
 End Menu.
 
+(* "class:completion-menu.meta.completion" / "...current" *)
+Definition S_META : list Z :=
+  [99;108;97;115;115;58;99;111;109;112;108;101;116;105;111;110;45;109;101;110;117;46;109;101;116;97;46;99;111;109;112;108;101;116;105;111;110].
+Definition S_META_CUR : list Z := S_META ++ [46;99;117;114;114;101;110;116].
+
+(* CompletionsMenuControl._get_menu_item_meta_fragments *)
+Definition menu_meta (wc : Z -> Z) (meta : list frag) (is_current : bool) (width : Z) : list frag :=
+  let tt := trim_ft wc meta (width - 2) in
+  with_style (if is_current then S_META_CUR else S_META)
+             ([([], [32])] ++ fst tt ++ [([], str_mul [32] (width - 1 - snd tt))]).
+
+(* shortcuts/prompt.py _split_multiline_prompt, over reversed(explode(prompt)) *)
+Definition is_nl (f : frag) : bool := str_eqb (snd f) [10].
+Fixpoint until_nl (l : list frag) : list frag * list frag :=    (* (before the first NL, after it) *)
+  match l with
+  | [] => ([], [])
+  | f :: r => if is_nl f then ([], r) else let p := until_nl r in (f :: fst p, snd p)
+  end.
+Definition prompt_has_before (fs : list frag) : bool := existsb (fun f : frag => mem_Z 10 (snd f)) fs.
+Definition prompt_first_input_line (fs : list frag) : list frag := rev (fst (until_nl (rev (explode fs)))).
+Definition prompt_before (fs : list frag) : list frag := rev (snd (until_nl (rev (explode fs)))).
+
+(* "class:prompt" / "class:prompt-continuation" *)
+Definition S_PROMPT : list Z := [99;108;97;115;115;58;112;114;111;109;112;116].
+Definition S_PROMPT_CONT : list Z := S_PROMPT ++ [45;99;111;110;116;105;110;117;97;116;105;111;110].
+
+(* PromptSession: message -> to_formatted_text(message, style="class:prompt");
+   lines above the input: FormattedTextControl(before);
+   Window get_line_prefix = _get_line_prefix: first_input_line on (0, 0), else the
+   continuation (application supplied fragments `cont`, or spaces) *)
+Definition session_prompt (message : list frag) : list frag := with_style S_PROMPT message.
+Definition session_prefix (message cont : list frag) (lineno wrapc : Z) : list frag :=
+  if (lineno =? 0) && (wrapc =? 0) then prompt_first_input_line (session_prompt message)
+  else with_style S_PROMPT_CONT cont.
+Definition session_before_lines (message : list frag) : list (list frag) :=
+  ftc_lines [] (prompt_before (session_prompt message)).
+
 (* ---------------------------------------------------------------- run_C10p *)
 
 Definition dec_proc (s : sx) : option processor :=
@@ -106,6 +171,15 @@ Definition dec_proc (s : sx) : option processor :=
                        | Some st', Some fs' => Some (PBeforeInput st' fs')
                        | _, _ => None
                        end
+  | L [A 3; st; tx; A last] => match as_str st, as_str tx with
+                               | Some st', Some tx' => Some (PAppend st' tx' last)
+                               | _, _ => None
+                               end
+  | L [A 4; L rs] =>
+      match map_opt (fun r => match r with L [A l; A a; A b] => Some (l, (a, b)) | _ => None end) rs with
+      | Some tab => Some (PSelect (fun l => assoc tab l))
+      | None => None
+      end
   | _ => None
   end.
 Definition enc_frag (f : frag) : sx := L [sx_str (fst f); sx_str (snd f)].
@@ -120,7 +194,7 @@ Definition run_C10p (c : sx) : sx :=
       | Some st', Some fs' => enc_lines (ftc_lines st' fs')
       | _, _ => bad_case
       end
-  | L [A 5; st; L ps; tx] =>
+  | L [A 5; st; L ps; tx] | L [A 5; st; L ps; tx; _] =>    (* optional 5th element: the selection the harness built *)
       match as_str st, map_opt dec_proc ps, as_str tx with
       | Some st', Some ps', Some tx' => enc_lines (buffer_lines st' ps' tx')
       | _, _, _ => bad_case
@@ -133,5 +207,15 @@ Definition run_C10p (c : sx) : sx :=
       end
   | L [A 7; fs] =>
       match dec_frags fs with Some fs' => enc_frags (explode fs') | None => bad_case end
+  | L [A 9; fs] =>         (* _split_multiline_prompt *)
+      match dec_frags fs with
+      | Some fs' => L [sx_bool (prompt_has_before fs'); enc_frags (prompt_before fs'); enc_frags (prompt_first_input_line fs')]
+      | None => bad_case
+      end
+  | L [A 10; wt; meta; cur; A w] =>     (* _get_menu_item_meta_fragments *)
+      match dec_wctab wt, dec_frags meta, as_bool cur with
+      | Some wt', Some m', Some cur' => enc_frags (menu_meta (wc_of wt') m' cur' w)
+      | _, _, _ => bad_case
+      end
   | _ => run_C10 c
   end.
